@@ -10,6 +10,7 @@
 -/
 import DateutilVerif.Proofs.RDAlgebra
 import DateutilVerif.Proofs.RDGenEq
+import DateutilVerif.Model.RDHistory
 
 namespace C16
 open RDM RDP
@@ -362,6 +363,107 @@ theorem constructor_gen (kw : Kw) (d : RD) :
     exact (every_op_normalised d d 0 kw 0 0 0).2.2.2.2.2.2 r h
   · intro h; rw [RDG.initKw_eq]; exact mk_fields_id d h
 
+/-! ## the history of ONE object (a relativedelta is mutable: `weeks` setter, attribute assignment)
+
+The property quantifies over values "however constructed or combined".  An object that was used (added to a date, hashed,
+compared …), then mutated, then used again must answer like the value its CURRENT fields denote: nothing that a use
+computed may survive into the next use.  `RDH.run` (Model/RDHistory.lean) is the life of one object over the methods
+re-translated from /repo on this run; that a use leaves the record alone is read off the source on every run (AST audit
+`rdlib.write_audit`: no method writes an attribute outside `__init__` / `_fix` / `_set_months` / the `weeks` setter). -/
+
+open RDH in
+/-- the record after a history is the record after its mutations alone: uses leave no trace in the state -/
+theorem history_state (d : RD) (h : List Step) : (run d h).1 = stateAfter d (muts h) := by
+  induction h generalizing d with
+  | nil => rfl
+  | cons s rest ih =>
+    cases s with
+    | use u => simp only [run, step, muts]; exact ih d
+    | set m => simp only [run, step, muts, stateAfter, List.foldl]; exact ih (applyMut d m)
+
+open RDH in
+theorem history_append (d : RD) (h1 h2 : List Step) :
+    run d (h1 ++ h2) = ((run (run d h1).1 h2).1, (run d h1).2 ++ (run (run d h1).1 h2).2) := by
+  induction h1 generalizing d with
+  | nil => simp [run]
+  | cons s rest ih =>
+    simp only [List.cons_append, run]
+    rw [ih]
+    simp only [List.append_assoc]
+
+open RDH in
+/-- **use_after_set_eq_fresh.** After ANY history `h` (uses and mutations in any order, any length) from any record, the
+    next use of the object returns exactly what the same use returns on a fresh record holding the current field
+    values (`stateAfter d0 (muts h)`: the start record with the history's mutations applied, and nothing else) — the
+    earlier uses, their arguments and their results have no influence; the record itself is unchanged by the use. -/
+theorem use_after_set_eq_fresh (d0 : RD) (h : List Step) (u : Use) :
+    (run d0 (h ++ [.use u])).2 = (run d0 h).2 ++ [observe (stateAfter d0 (muts h)) u] ∧
+    (run d0 (h ++ [.use u])).1 = stateAfter d0 (muts h) := by
+  rw [history_append]
+  simp only [run, step, List.append_nil]
+  rw [history_state]
+  exact ⟨rfl, rfl⟩
+
+open RDH in
+/-- **same_mutations_same_answer.** Two lives of an object that differ only in HOW it was used in between (which uses,
+    how many, on what arguments) give the same answer to the next use. -/
+theorem same_mutations_same_answer (d0 : RD) (h1 h2 : List Step) (u : Use) (hm : muts h1 = muts h2) :
+    (run d0 (h1 ++ [.use u])).2.getLast? = (run d0 (h2 ++ [.use u])).2.getLast? ∧
+    (run d0 (h1 ++ [.use u])).1 = (run d0 (h2 ++ [.use u])).1 := by
+  rw [(use_after_set_eq_fresh d0 h1 u).1, (use_after_set_eq_fresh d0 h2 u).1,
+      (use_after_set_eq_fresh d0 h1 u).2, (use_after_set_eq_fresh d0 h2 u).2, hm]
+  simp
+
+open RDH in
+/-- every observation through the translated methods is the hand model's function of the record -/
+theorem observe_eq_model (d : RD) (u : Use) :
+    observe d u = (match u with
+      | .addDt x => .temporal (applyTo d x)
+      | .raddDt x => .temporal (radd d x)
+      | .rsubDt x => .temporal (rsub d x)
+      | .hash => .hash (.ok (hashList d))
+      | .bool => .bool (.ok (RDM.bool d))
+      | .eq o => .bool (.ok (RDM.eq d o))
+      | .eqRev o => .bool (.ok (RDM.eq o d))
+      | .neg => .rd (.ok (neg d))
+      | .abs => .rd (.ok (RDM.abs d))
+      | .addRd o => .rd (.ok (add d o))
+      | .raddRd o => .rd (.ok (add o d))
+      | .subRd o => .rd (.ok (sub d o))
+      | .mulInt k => .rd (.ok (mulInt d k))
+      | .addTd dd s us => .rd (.ok (addTimedelta d dd s us))
+      | .weeks => .int (weeksOf d)) := by
+  cases u <;> simp only [observe, RDG.addDt_eq, RDG.raddDt_eq, RDG.rsubDt_eq, RDG.hashKey_eq, RDG.bool_eq, RDG.eq_eq,
+    RDG.neg_eq, RDG.abs_eq, RDG.addRd_eq, RDG.subRd_eq, RDG.mulInt_eq, RDG.addTd_rd_eq]
+
+open RDH in
+/-- **reachable_state_is_constructed.** When the current record is in normal form (what the constructor and the operators
+    return, `every_op_normalised`), the fresh record of `use_after_set_eq_fresh` IS the object the translated
+    constructor builds from the current field values: `relativedelta(**fields)`. -/
+theorem reachable_state_is_constructed (d0 : RD) (h : List Step) (hn : Normalised (stateAfter d0 (muts h))) :
+    Gen.initKw (fieldsOf (stateAfter d0 (muts h))) = .ok (run d0 h).1 := by
+  rw [history_state]; exact (constructor_gen {} _).2.2 hn
+
+open RDH in
+/-- **setWeeks_normalised.** The public `weeks` setter keeps a value a value: only `days` (unbounded in the normal form,
+    not a source of `_has_time`) changes, by a multiple of 7 plus the old remainder. -/
+theorem setWeeks_normalised (d : RD) (v : Int) (h : Normalised d) :
+    Normalised (setWeeks d v) ∧ (setWeeks d v).days = d.days - weeksOf d * 7 + v * 7 ∧
+    { setWeeks d v with days := d.days } = d := by
+  refine ⟨?_, rfl, rfl⟩
+  unfold Normalised setWeeks hasTimeOf at *
+  exact h
+
+open RDH in
+/-- **weeks_setWeeks.** Reading `weeks` back after setting it returns the value set whenever the remainder of the old
+    days and the new weeks do not pull in opposite directions (e.g. `days=-3; weeks=2` gives days = 11, weeks = 1:
+    the code as it is; outside this hypothesis the getter is still `tdiv days 7` of the new days). -/
+theorem weeks_setWeeks (d : RD) (v : Int)
+    (h : (0 ≤ d.days ∧ 0 ≤ v) ∨ (d.days ≤ 0 ∧ v ≤ 0) ∨ d.days % 7 = 0) : weeksOf (setWeeks d v) = v := by
+  unfold setWeeks weeksOf
+  simp only []
+  split <;> split <;> omega
+
 -- non-vacuity / sanity
 example : Gen.fix { seconds := -3661, microseconds := 2500000 } =
     { hours := -1, minutes := 0, seconds := -59, microseconds := 500000, hasTime := 1 } := by decide
@@ -374,4 +476,10 @@ example : mk { yearday := some 367 } = .error .ValueError := by decide
 example : mk { yearday := some 60 } = .ok { leapdays := -1, month := some 3, day := some 1 } := by decide
 example : Normalised (neg { days := 3, hours := -5, hasTime := 1 }) := (every_op_normalised _ {} 0 {} 0 0 0).2.2.1
 
+example : (RDH.run { days := 10 } [.use (.addDt ⟨.date, { y := 2000, m := 1, d := 1 }⟩), .set (.weeks 3), .use .hash,
+    .set (.hours 5), .use (.addDt ⟨.date, { y := 2000, m := 1, d := 1 }⟩)]).1 = { days := 24, hours := 5 } := by decide +kernel
+example : (RDH.run { days := 10 } [.use (.addDt ⟨.date, { y := 2000, m := 1, d := 1 }⟩), .set (.weeks 3),
+    .use (.addDt ⟨.date, { y := 2000, m := 1, d := 1 }⟩)]).2 =
+    [.temporal (.ok ⟨.date, { y := 2000, m := 1, d := 11 }⟩), .temporal (.ok ⟨.date, { y := 2000, m := 1, d := 25 }⟩)] := by
+  decide +kernel
 end C16
